@@ -2,6 +2,7 @@ package main
 
 import (
 	"math/rand"
+	"strconv"
 )
 
 // Type-directed generator of draft-4 schemas and instances (family "schema").
@@ -55,6 +56,10 @@ var typeNames = []string{"string", "integer", "number", "boolean", "null", "arra
 
 func (g *sgen) schema(depth int) map[string]interface{} {
 	s := map[string]interface{}{}
+	if g.mal && g.p(2) {
+		s["$ref"] = "#/definitions/missing"
+		return s
+	}
 	if len(g.defs) > 0 && g.p(8) {
 		s["$ref"] = "#/definitions/" + g.pick(g.defs)
 		return s
@@ -213,8 +218,15 @@ func (g *sgen) schema(depth int) map[string]interface{} {
 		}
 		req := []interface{}{}
 		seen := map[string]bool{}
+		var propNames []string
+		if pm, ok := s["properties"].(map[string]interface{}); ok {
+			propNames = sortedKeys(pm)
+		}
 		for i := 0; i < k; i++ {
 			n := g.pick(namePool)
+			if len(propNames) > 0 && g.p(60) {
+				n = g.pick(propNames)
+			}
 			if !seen[n] {
 				seen[n] = true
 				req = append(req, n)
@@ -472,6 +484,9 @@ func (g *sgen) instanceFor(s map[string]interface{}, root map[string]interface{}
 		tuple, _ := s["items"].([]interface{})
 		single, _ := s["items"].(map[string]interface{})
 		addl, _ := s["additionalItems"].(map[string]interface{})
+		if tuple != nil && g.p(60) {
+			n = len(tuple) + g.rng.Intn(4)
+		}
 		for i := 0; i < n; i++ {
 			switch {
 			case single != nil && depth > 0:
@@ -608,7 +623,37 @@ func (g *sgen) mutate(v interface{}, depth int) interface{} {
 	}
 }
 
+// round15 keeps numbers inside the C01 quantifier: at most 15 significant digits, |x| <= 2^53
+func round15(v interface{}) interface{} {
+	switch x := v.(type) {
+	case float64:
+		if x > 9007199254740992 {
+			x = 9007199254740992
+		}
+		if x < -9007199254740992 {
+			x = -9007199254740992
+		}
+		f, _ := strconv.ParseFloat(strconv.FormatFloat(x, 'g', 15, 64), 64)
+		return f
+	case []interface{}:
+		for i := range x {
+			x[i] = round15(x[i])
+		}
+		return x
+	case map[string]interface{}:
+		for k := range x {
+			x[k] = round15(x[k])
+		}
+		return x
+	}
+	return v
+}
+
 func (g *sgen) instance(s map[string]interface{}) interface{} {
+	return round15(g.instance0(s))
+}
+
+func (g *sgen) instance0(s map[string]interface{}) interface{} {
 	r := g.rng.Intn(100)
 	switch {
 	case r < 15:
